@@ -10,6 +10,8 @@ code: do_loop_unroll (`!$loki loop-unroll [depth(n)]`), do_loop_fusion, do_loop_
           (independent iterations, see lib_fm_loops.NestGen); range-mismatched fusion included because the
           transformation documents and tests its guard insertion.
 """
+import os
+
 from .. import lib_fm as F
 from .. import lib_fm_loops as L
 
@@ -31,7 +33,10 @@ def run(ctx):
         cases = [(c['prog'], c['inputs'])]
     else:
         cases = []
+        only = [f for f in os.environ.get('VERIF_FAMILIES', '').split(',') if f]    # development aid
         for fam, (q, t) in PLAN.items():
+            if only and fam not in only:
+                continue
             for _ in range(q if ctx.quick else t):
                 cases.append(L.gen_c31(ctx.rng, fam))
     with L.checked_builds():
